@@ -1,6 +1,10 @@
 #!/bin/bash
 # re-run every kept seeded change against the check of its property; writes /verif/seeded/RESULTS.txt
 cd /verif || exit 2
+# own scratch worktree / target / output directories: may run next to tools/process_seeds.sh
+export VERIF_SEED_WT=/tmp/seedrepo-all VERIF_ALT_TARGET=/tmp/verif-alt-target-all VERIF_SEED_OUT=/tmp/seedrun-all
+rsync -a --delete --exclude target /verif/harness/ /tmp/harness-snap-all/
+export VERIF_HARNESS_DIR=/tmp/harness-snap-all
 : > seeded/RESULTS.txt
 for d in seeded/*/; do
   n=$(basename "$d"); p="${n%%-*}"
